@@ -626,3 +626,17 @@ fn maybe_release_sft_during_activation(
     }
     Ok(())
 }
+
+#[cfg(feature = "verif")]
+impl ZchState {
+    /// Verification hook: render the dynamic zippychord state.
+    /// `zchd_ticks_since_state_change` is rendered separately so callers can mask it.
+    pub(crate) fn verif_digest(&self, out: &mut String) {
+        use std::fmt::Write;
+        if self.zch_chords.is_empty() {
+            let _ = write!(out, "zch=off;");
+        } else {
+            let _ = write!(out, "zch={:?};", self.zchd);
+        }
+    }
+}
